@@ -548,6 +548,10 @@ def main():
             "cli_runs": 2 * len(universes), "documents_written": len(accepted),
             "documents_not_written": len(raw) - len(accepted),
             "model_predicts_failure": len([i for i in ev["model_none"] if meta[i][2] == "raw"]),
+            "runs_satisfying_theorem_hypotheses": {
+                "unique_type_names_and_quiet (C07_lookup_partial, C07_noninterference_partial)":
+                    len([i for i in ev["unique_quiet"] if meta[i][2] == "raw"]),
+                "well_linked (C08_wf_partial)": len([i for i in ev["well_linked"] if meta[i][2] == "raw"])},
             "metamorphic_pairs": pair_stats}),
     })
     res.assumptions += [
